@@ -58,6 +58,21 @@ def step (ts : List String) : String :=
           dr dphi dz rmin period st (pI ms) (specOf spec0)
           { sx := sx, sy := sy, sz := sz, ex := ex, ey := ey, ez := ez })
       | _ => "bad-op"
+  | "ecart" :: n0 :: n1 :: n2 :: nb :: rest =>
+      let (fs, rest) := takeF 6 rest
+      match fs with
+      | [dx, dy, dz, x, y, z] =>
+        let vm : VMap := { n0 := pN n0, n1 := pN n1, n2 := pN n2, data := (ints rest).toArray }
+        showSpec (pN nb) (emit vm.look (pN nb) (fun _ => (0 : Float)) (cartCell truncF dx dy dz x y z))
+      | _ => "bad-op"
+  | "ecyl" :: n0 :: n1 :: n2 :: nb :: rest =>
+      let (fs, rest) := takeF 8 rest
+      match fs with
+      | [dr, dphi, dz, rmin, period, x, y, z] =>
+        let vm : VMap := { n0 := pN n0, n1 := pN n1, n2 := pN n2, data := (ints rest).toArray }
+        showSpec (pN nb) (emit vm.look (pN nb) (fun _ => (0 : Float))
+          (cylCell truncF Float.sqrt Float.atan2 fmodF piF (pN n1) dr dphi dz rmin period x y z))
+      | _ => "bad-op"
   | "plan" :: geo :: ms :: rest =>
       match rest.map pF with
       | [st, sx, sy, sz, ex, ey, ez] =>
